@@ -194,7 +194,10 @@ impl WeightedSampler {
         let mut weighted_keys: Vec<(f64, NodeId)> = candidates
             .iter()
             .map(|(node_id, weight)| {
-                if *weight <= 0.0 {
+                // NaN compares false with everything: reject it explicitly, otherwise the
+                // key below is NaN and the sort's comparator is no longer a total order
+                // (slice::sort_by panics on that since Rust 1.81).
+                if weight.is_nan() || *weight <= 0.0 {
                     return Err(PlacementError::InvalidWeight {
                         node_id: node_id.clone(),
                         weight: *weight,
